@@ -2,14 +2,17 @@
 continuations, parse, feed the shadow client, record the step."""
 from __future__ import annotations
 
+import re
+
 from .loop import StepBudgetExceeded
+from .refmodel import seqset as _seqset
 from .shadow import Shadow
 from .report import Violation
 
 
 class Step:
     __slots__ = ('si', 'tag', 'sent', 'raw', 'responses', 'tagged', 'conts',
-                 'closed', 'hang', 'task_exc', 'verb', 'uid')
+                 'closed', 'hang', 'task_exc', 'verb', 'uid', 'search_view')
 
     def __init__(self, si, tag, sent) -> None:
         self.si = si
@@ -24,6 +27,7 @@ class Step:
         self.task_exc = None
         self.verb = None
         self.uid = False
+        self.search_view = None
 
     @property
     def cond(self):
@@ -51,6 +55,45 @@ def verb_of(line: bytes):
     return (v, False)
 
 
+_SILENT_RE = re.compile(
+    rb'^(UID\s+)?STORE\s+(\S+)\s+([+-]?)FLAGS\.SILENT\s+\(?([^)]*)\)?\s*$',
+    re.I)
+
+
+def apply_silent_store(sh, line: bytes, pre_slots) -> None:
+    """A client that sent STORE ... .SILENT and got OK assumes the change on
+    the messages it addressed (by its own view when it sent the command)."""
+    m = _SILENT_RE.match(line)
+    if not m:
+        return
+    uid, spec, op, flags = m.groups()
+    fl = frozenset(f.lower() for f in flags.split())
+    fl -= {b'\\recent'}
+    try:
+        if uid:
+            known = [s.uid for s in pre_slots if s.uid is not None]
+            mx = max(known) if known else 0
+            mem = _seqset.members(spec, mx)
+            targets = [s for s in pre_slots if s.uid in mem]
+        else:
+            mem = _seqset.members(spec, len(pre_slots))
+            targets = [s for i, s in enumerate(pre_slots, 1) if i in mem]
+    except ValueError:
+        return
+    for slot in targets:
+        if slot.flags is None:
+            continue
+        keep = slot.flags & {b'\\recent'}
+        cur = slot.flags - keep
+        if op == b'+':
+            cur = cur | fl
+        elif op == b'-':
+            cur = cur - fl
+        else:
+            cur = fl
+        slot.flags = frozenset(cur | keep)
+
+
 class Ctx:
     """A world plus per-session shadows and the step log."""
 
@@ -61,6 +104,31 @@ class Ctx:
         self.last: Step | None = None
         self.extra: dict = {}
         self.harness_errors: list[str] = []
+        self.open_steps: dict[int, Step] = {}
+
+    def more(self, si: int, data: bytes, *, max_handles: int = 20000) -> Step:
+        """Continue the open (not yet completed) command of session si, e.g.
+        DONE after IDLE or a literal after a continuation request."""
+        step = self.open_steps[si]
+        s = self.session(si)
+        sh = self.shadows[si]
+        step.sent.append(data)
+        try:
+            d, rs = self.world.send(s, data, max_handles=max_handles)
+            self._absorb(si, step, d, rs)
+        except StepBudgetExceeded as exc:
+            step.hang = str(exc)
+        if step.tagged is not None:
+            sh.end(step.tagged)
+            del self.open_steps[si]
+        step.closed = s.conn.closed or s.done
+        if s.done:
+            step.task_exc = s.task_exception()
+            self.open_steps.pop(si, None)
+        sh.check_order()
+        self.pull_all(skip=si)
+        self.last = step
+        return step
 
     def connect(self, **kw):
         s = self.world.connect(**kw)
@@ -78,6 +146,8 @@ class Ctx:
             if r.kind == 'tagged' and r.tag == step.tag:
                 step.tagged = r
             elif r.kind == 'untagged':
+                if r.name == 'SEARCH':
+                    step.search_view = (sh.count, list(sh.uids()))
                 sh.apply(r)
         s = self.session(si)
         if s.parse_error is not None and s.parse_error.kind == 'grammar':
@@ -111,6 +181,7 @@ class Ctx:
         step.verb, step.uid = verb_of(line)
         sh = self.shadows[si]
         sh.begin(step.verb, step.uid)
+        pre_slots = list(sh.slots)
         try:
             data, rs = w.send(s, tag + b' ' + line + b'\r\n',
                               max_handles=max_handles)
@@ -127,6 +198,11 @@ class Ctx:
             step.hang = str(exc)
         if step.tagged is not None:
             sh.end(step.tagged)
+            if step.verb == 'STORE' and step.cond == 'OK' \
+                    and b'.SILENT' in line.upper():
+                apply_silent_store(sh, line, pre_slots)
+        elif not s.done and step.hang is None:
+            self.open_steps[si] = step
         step.closed = s.conn.closed or s.done
         if s.done:
             step.task_exc = s.task_exception()
